@@ -76,6 +76,7 @@ type mTCP struct {
 	ClosedAt int64
 	Conn     *TCPConn // the server-side simnet endpoint toward the peer
 	ForeignTried bool  // a ConnectionBind by another user was refused for it
+	Uncertain    bool  // the write of its ConnectionBind success response failed: whether a pipe exists is not judged
 }
 
 type mAlloc struct {
